@@ -345,6 +345,19 @@ fn stream_field_arith(t: &mut Transcript, quick: bool) {
         out.push((fa == fb) as u8);
         Rec { op: "Fq:select/ct_eq".into(), input: [to32(&small[a]), to32(&small[b])].concat(), output: out }
     });
+    let mp = mont_patterns(&p, 32, 0);
+    let nm = mp.len();
+    let work: Vec<(usize, usize)> = (0..nm * nm).map(|i| (i / nm, i % nm)).collect();
+    t.emit_par(&work, |&(a, b)| {
+        let (fa, fb) = (Fq::of(&mp[a]), Fq::of(&mp[b]));
+        let mut out = Fq::conditional_select(&fa, &fb, Choice::from(1)).to_le();
+        out.push(fa.ct_eq(&fb).unwrap_u8());
+        out.push((fa == fb) as u8);
+        out.extend((fa - fb).to_le());
+        out.extend((fa + fb).to_le());
+        out.extend((fa * fb).to_le());
+        Rec { op: "Fq:montgomery-patterns".into(), input: [to32(&mp[a]), to32(&mp[b])].concat(), output: out }
+    });
     let exps = c10::exp_slices(&p);
     let bases = [u(0), u(1), u(2), &p - 1u32, u(3021)];
     let work: Vec<(usize, usize)> = (0..bases.len() * exps.len()).map(|i| (i % bases.len(), i / bases.len())).collect();
